@@ -1,15 +1,18 @@
 /-
 Driver for C01.  Request line (fields separated by single spaces, no spaces inside values):
-  M=<doc|dummy|frag> T=<rec>;<rec>;... E=<tok>~<tok>~... C=<ctx index>,<ctx index>,... | *
+  M=<doc|dummy|frag> T=<rec>;<rec>;... X=<nested tree> E=<tok>~<tok>~... C=<ctx index>,<ctx index>,... | *
 rec  = <kind>,<uri>,<name>,<parent or ->,<size>     kind ∈ D E A N T C P
 expr = Polish notation:  s <axis> <test> | sa <axis> <test> (abbreviated child/@) | c | u | p E E | sl E E | ds E E | r0 | r E | dr E | g E
        | un E E | count E | n <k> | pos | last | cmp <op> E E | and E E | or E E | not E
 test = node | text | comment | pi | pi:<target> | any | q:<uri>:<local> | ns:<uri>
-Answer:  wf=<0|1> ty=<path|num|bool|none> R=<ctx>:<model>:<spec>:<inK>|...
+With OP=state (no E): the generator traces of EPV/Model/AxesState.lean, see `answerState`.
+Answer:  wf=<0|1> fl=<0|1: T = flatten X> ty=<path|num|bool|none> R=<ctx>:<model>:<spec>:<inK>|...
 value = N<i>,<i>,... | B0 | B1 | #<k> | ERR;  inK = 1 (F01b trigger) + 2 (F01c trigger) + 4 (F01i trigger)
 -/
 import EPV.Proto
 import EPV.Spec.XPath1Paths
+import EPV.Model.AxesTree
+import EPV.Model.AxesState
 open EPV.Proto EPV.XP
 
 def parseKind : String → Option Kind
@@ -79,6 +82,57 @@ where
     let (e, rest) ← parseE rest
     pure (f e, rest)
 
+/-! nested tree:  E~uri~name~#ns~pfx…~#attrs~(uri~local)…~#kids~kid… | L~T|C|P~name ;
+    root: doc~#kids~kid… | dummy~E… | frag~E… -/
+def takeN {α} (f : List String → Option (α × List String)) : Nat → List String → Option (List α × List String)
+  | 0, ts => some ([], ts)
+  | n + 1, ts => do
+    let (x, ts) ← f ts
+    let (xs, ts) ← takeN f n ts
+    pure (x :: xs, ts)
+
+def forestOf : List XNode → XForest
+  | [] => .nil
+  | k :: ks => .cons k (forestOf ks)
+
+partial def parseNode : List String → Option (XNode × List String)
+  | "L" :: k :: nm :: rest =>
+    match k with
+    | "T" => some (.leaf .text nm, rest)
+    | "C" => some (.leaf .comment nm, rest)
+    | "P" => some (.leaf .pi nm, rest)
+    | _ => none
+  | "E" :: u :: n :: nn :: rest => do
+    let nn ← nat? nn
+    let (nss, rest) ← takeN (fun ts => match ts with | t :: r => some (t, r) | [] => none) nn rest
+    match rest with
+    | na :: rest => do
+      let na ← nat? na
+      let (attrs, rest) ← takeN (fun ts => match ts with | x :: y :: r => some ((x, y), r) | _ => none) na rest
+      match rest with
+      | nk :: rest => do
+        let nk ← nat? nk
+        let (kids, rest) ← takeN parseNode nk rest
+        pure (.elem u n nss attrs (forestOf kids), rest)
+      | [] => none
+    | [] => none
+  | _ => none
+
+def parseRoot : List String → Option Root
+  | "doc" :: nk :: rest => do
+    let nk ← nat? nk
+    let (kids, rest) ← takeN parseNode nk rest
+    if rest.isEmpty then pure (.doc (forestOf kids)) else none
+  | "dummy" :: rest =>
+    match parseNode rest with
+    | some (.elem u n nss attrs kids, []) => some (.dummy u n nss attrs kids)
+    | _ => none
+  | "frag" :: rest =>
+    match parseNode rest with
+    | some (.elem u n nss attrs kids, []) => some (.frag u n nss attrs kids)
+    | _ => none
+  | _ => none
+
 def showVal : Val → String
   | .nodes l => "N" ++ ",".intercalate (l.map toString)
   | .bool b => if b then "B1" else "B0"
@@ -88,28 +142,66 @@ def showVal : Val → String
 def parseMode : String → Option Mode
   | "doc" => some .doc | "dummy" => some .dummy | "frag" => some .frag | _ => none
 
+def axisName : Axis → String
+  | .self => "self" | .child => "child" | .descendant => "descendant"
+  | .descendantOrSelf => "descendant-or-self" | .parent => "parent" | .ancestor => "ancestor"
+  | .ancestorOrSelf => "ancestor-or-self" | .followingSibling => "following-sibling"
+  | .precedingSibling => "preceding-sibling" | .following => "following" | .preceding => "preceding"
+  | .attribute => "attribute" | .namespace => "namespace"
+
+def allAxes : List Axis :=
+  [.self, .child, .descendant, .descendantOrSelf, .parent, .ancestor, .ancestorOrSelf, .followingSibling,
+   .precedingSibling, .following, .preceding, .attribute, .namespace]
+
+def showCtx (c : Ctx) : String :=
+  s!"{c.item},{match c.axis with | some ax => axisName ax | none => "-"}"
+
+def showTrace (r : List (Nat × Ctx) × Ctx) : String :=
+  ";".intercalate (r.1.map fun yc => s!"{yc.1},{showCtx yc.2}") ++ "/" ++ showCtx r.2
+
+/-- OP=state: for every context node and every iterator the model's trace (value, item, axis at each
+yield / item, axis after exhaustion), entered with axis None.  `ctx:axis:trace` joined by `|` -/
+def answerState (m : Mode) (a : Arr) (ctxs : List Nat) : String :=
+  "|".intercalate (ctxs.flatMap fun c =>
+    let st : Ctx := ⟨c, none⟩
+    (allAxes.map fun ax => s!"{c}:{axisName ax}:{showTrace (exec (prog m a ax st) st)}") ++
+    [s!"{c}:dslash:{showTrace (exec (progDslash m a st) st)}"])
+
+def answerExpr (line : String) (m : Mode) (a : Arr) (e : Expr) : String :=
+  let fs := fields line
+  let wf := wfArr m a
+  -- the harness' array must be `Root.flatten` of the nested tree it also sends (X=…), for which
+  -- `flatten_WF` is a theorem
+  let fl := match parseRoot ((field fs "X").splitOn "~") with
+    | some r => decide (r.flatten = a) && decide (r.mode = m)
+    | none => false
+  let tyS := match ty e with
+    | some .path => "path" | some .num => "num" | some .bool => "bool" | none => "none"
+  let cs := field fs "C"
+  let ctxs : List Nat := if cs == "*" then List.range a.length else
+    (cs.splitOn ",").filterMap nat?
+  let outs := ctxs.map fun c =>
+    let f : Focus := ⟨c, 1, 1⟩
+    let mv := eval m a e f
+    let sv := Spec.sem m a e f
+    let k := (if safeG (fun ax _ n => okF01b a ax n) m a e f then 0 else 1) +
+             (if safeG (fun ax _ n => okF01c a ax n) m a e f then 0 else 2) +
+             (if safeG (fun ax ab n => okF01i m ax ab n) m a e f then 0 else 4)
+    s!"{c}:{showVal mv}:{showVal sv}:{k}"
+  s!"wf={if wf then 1 else 0} fl={if fl then 1 else 0} ty={tyS} R={"|".intercalate outs}"
+
 def answer (line : String) : String :=
   let fs := fields line
-  match parseMode (field fs "M"), ((field fs "T").splitOn ";").mapM parseRec,
-        parseE ((field fs "E").splitOn "~") with
-  | some m, some a, some (e, []) =>
-    let wf := wfArr m a
-    let tyS := match ty e with
-      | some .path => "path" | some .num => "num" | some .bool => "bool" | none => "none"
-    let cs := field fs "C"
-    let ctxs : List Nat := if cs == "*" then List.range a.length else
-      (cs.splitOn ",").filterMap nat?
-    let outs := ctxs.map fun c =>
-      let f : Focus := ⟨c, 1, 1⟩
-      let mv := eval m a e f
-      let sv := Spec.sem m a e f
-      let k := (if safeG (fun ax _ n => okF01b a ax n) m a e f then 0 else 1) +
-               (if safeG (fun ax _ n => okF01c a ax n) m a e f then 0 else 2) +
-               (if safeG (fun ax ab n => okF01i m ax ab n) m a e f then 0 else 4)
-      s!"{c}:{showVal mv}:{showVal sv}:{k}"
-    s!"wf={if wf then 1 else 0} ty={tyS} R={"|".intercalate outs}"
-  | none, _, _ => "bad-mode"
-  | _, none, _ => "bad-tree"
-  | _, _, _ => "bad-expr"
+  match parseMode (field fs "M"), ((field fs "T").splitOn ";").mapM parseRec with
+  | some m, some a =>
+    if field (fields line) "OP" == "state" then
+      let cs := field (fields line) "C"
+      let ctxs : List Nat := if cs == "*" then List.range a.length else (cs.splitOn ",").filterMap nat?
+      s!"wf={if wfArr m a then 1 else 0} S={answerState m a ctxs}"
+    else match parseE ((field (fields line) "E").splitOn "~") with
+    | some (e, []) => answerExpr line m a e
+    | _ => "bad-expr"
+  | none, _ => "bad-mode"
+  | _, none => "bad-tree"
 
 def main : IO Unit := mainLoop answer
